@@ -530,3 +530,62 @@ Proof.
   destruct (IH b) as [I1 I2].
   split; intro Hin; apply in_app_or in Hin; tauto.
 Qed.
+
+(* ------------------------------------------------------------ need-more only when incomplete *)
+(* a complete, well-delimited frame at the head of the buffer is ALWAYS delivered
+   (whatever its body: the body is for the codec), consuming exactly its length *)
+Theorem complete_frame_delivered data :
+  complete_frame data = true ->
+  exists m, frame_read data = RMsg m (unbe (sub data 3 7)).
+Proof.
+  unfold complete_frame, frame_read. intro H.
+  repeat (apply andb_true_iff in H as [H ?]).
+  replace (len data <? 16) with false by (symmetry; apply N.ltb_ge; lia).
+  rewrite H3. cbn [negb].
+  replace ((unbe (sub data 7 9) <? 16) || (unbe (sub data 3 7) <? unbe (sub data 7 9))) with false
+    by (symmetry; apply orb_false_iff; split; apply N.ltb_ge; lia).
+  replace (len data <? unbe (sub data 3 7)) with false by (symmetry; apply N.ltb_ge; lia).
+  destruct (decode_headmap _ _) eqn:E; [eauto|]. now apply decode_headmap_total in E.
+Qed.
+
+(* "need more data" is answered ONLY when the frame is incomplete: never on a
+   complete frame (the transport loop would wait for ever with the frame in its buffer) *)
+Theorem need_only_incomplete data hint :
+  frame_read data = RNeed hint -> complete_frame data = false.
+Proof.
+  intro H. destruct (complete_frame data) eqn:E; auto.
+  destruct (complete_frame_delivered data E) as (m & Hm). congruence.
+Qed.
+
+(* ------------------------------------------------------------ one handler, several connections *)
+Lemma drive_from_feed_all chunks : forall buf,
+  drive_from buf chunks = feed_all (buf, true) chunks.
+Proof.
+  induction chunks as [|c cs IH]; intro buf; [reflexivity|].
+  cbn [drive_from feed_all feed negb].
+  destruct c as [|x c]; [cbn; apply IH|].
+  destruct (pump (S (length (buf ++ x :: c))) (buf ++ x :: c)) as [[ev b'] o].
+  destruct o.
+  - now rewrite IH.
+  - clear IH. assert (G : forall cs0, feed_all (b', false) cs0 = []).
+    { induction cs0 as [|c0 cs0 IH0]; [reflexivity|]. cbn [feed_all feed negb]. exact IH0. }
+    rewrite G. now rewrite app_nil_r.
+Qed.
+
+(* Read is a function of the bytes it is given — it keeps nothing from earlier calls —
+   so whatever the interleaving of two connections on the one handler instance, each
+   connection delivers exactly what it would deliver alone *)
+Theorem drive2_independent sched : forall a b,
+  drive2 a b sched = (feed_all a (chunks_of false sched), feed_all b (chunks_of true sched)).
+Proof.
+  induction sched as [|[side ch] s IH]; intros a b; [reflexivity|].
+  destruct side; cbn [drive2 chunks_of filter map fst snd Bool.eqb].
+  - fold (chunks_of true s). fold (chunks_of false s). cbn [feed_all].
+    destruct (feed b ch) as [b' ev]. rewrite IH. reflexivity.
+  - fold (chunks_of true s). fold (chunks_of false s). cbn [feed_all].
+    destruct (feed a ch) as [a' ev]. rewrite IH. reflexivity.
+Qed.
+
+Corollary C13_interleaving sched :
+  drive2 conn0 conn0 sched = (drive (chunks_of false sched), drive (chunks_of true sched)).
+Proof. unfold drive. rewrite !drive_from_feed_all. apply drive2_independent. Qed.
